@@ -157,6 +157,7 @@ def run_case(case):
     treelike = rng.random() < 0.1
     G, motifs, loopy = build(rng, treelike)
     like = build.last
+    frozen = rng.random() < 0.2
     res.count("networks")
     res.count("loopy_networks" if loopy else "treelike_controls")
     ref = Reference(G, motifs)
@@ -176,6 +177,9 @@ def run_case(case):
         else:
             res.count("order_dependent_points_skipped")
     # (1) equality at fast points, object with many iterations
+    if frozen:
+        nx.freeze(G)                  # message passing only reads the cover: a frozen graph is as good as any
+        res.count("frozen_input_graphs")
     MP = sut("MessagePassing(G, iterations=40)", gcmpy.MessagePassing, G, iterations=40)
     nt = False
     vals60 = {}
@@ -285,7 +289,7 @@ def run_case(case):
                 res.violate("differs-from-the-reference-fixed-point", phi=phi, got=a, want=S, ctx=ctx2); break
     # (5) history on one graph OBJECT: its cover labels are replaced in place (here: by the edge cover - every edge its own
     # 2-clique) and a NEW MessagePassing object is built on it; it must answer for the cover the graph carries now
-    if res.verdict == "held" and rng.random() < 0.6:
+    if res.verdict == "held" and not frozen and rng.random() < 0.6:
         motifs3 = []
         for n_e, (a, b) in enumerate(list(G.edges())):
             vs = sorted([a, b])
